@@ -141,10 +141,15 @@ def _chunk(base_seed, start, count, per_run_wall):
             if len(out['errors']) < 3:
                 out['errors'].append(('limit', i, repr(e)))
             continue
-        except Exception:
+        except (Exception, GeneratorExit) as e:
             out['errors'].append(('error', i, traceback.format_exc()[-3000:]))
             if len(out['errors']) > 5:
                 break
+            continue
+        except BaseException as e:  # noqa: B036 - an exotic exception escaping circuits and the property module: report, do not kill the worker
+            if isinstance(e, (KeyboardInterrupt, SystemExit)):
+                raise
+            out['errors'].append(('error', i, 'BaseException escaped run_one: ' + traceback.format_exc()[-3000:]))
             continue
         finally:
             faulthandler.cancel_dump_traceback_later()
